@@ -492,11 +492,70 @@ pub fn case_uniformity_fresh_replay(bytes: &[u8], _s: &[u8], ctx: &mut Ctx) -> R
     Ok(())
 }
 
+/// The reservoir as the DogStatsD exporter configures it (sampling on, `with_histogram_reservoir_size(r)`): between two
+/// flushes of the aggregation state a histogram yields min(n, r) of the n recorded values, all of them recorded in that
+/// window, and reports the rate min(n, r) / n — for the capacity the user configured, whatever it is.
+pub fn case_exporter(bytes: &[u8], _s: &[u8], ctx: &mut Ctx) -> Result<(), Fail> {
+    use metrics::{Key, Level, Metadata, Recorder};
+    use metrics_exporter_dogstatsd::{__verif::Driver, AggregationMode};
+    static EMETA: Metadata<'static> = Metadata::new("c16e", Level::INFO, None);
+    let mut src = Source::new(bytes);
+    let cap = *src.pick(&[1usize, 2, 3, 5, 6, 7, 9, 100, 1000, 1024]);
+    let cycles: Vec<usize> = (0..1 + src.below(4))
+        .map(|_| match src.below(5) {
+            0 => src.below(cap + 1),
+            1 => cap,
+            2 => cap + 1,
+            _ => cap + 1 + src.below(cap.min(300) + 3),
+        })
+        .collect();
+    let distributions = src.bool();
+    ctx.case(&(cap, &cycles, distributions));
+    if cap & (cap - 1) != 0 && cycles.iter().any(|n| *n > cap) {
+        ctx.nontrivial("overflowing-cycle-with-a-capacity-that-is-not-a-power-of-two");
+    }
+    let mut driver = Driver::new(AggregationMode::Conservative, true, cap, distributions, vec![], None, 65_000, false);
+    let rec = driver.recorder();
+    let key = Key::from_name("h");
+    let mut next = 1u64;
+    for (ci, n) in cycles.iter().enumerate() {
+        let first = next;
+        for _ in 0..*n {
+            rec.register_histogram(&key, &EMETA).record(next as f64);
+            next += 1;
+        }
+        let payloads = driver.flush();
+        let mut sent: Vec<u64> = vec![];
+        let mut rates: Vec<Option<String>> = vec![];
+        for p in &payloads {
+            let m = crate::parsers::parse_dsd_message(p).map_err(|e| Fail::new("payload-not-one-message", e))?;
+            for v in &m.values {
+                sent.push(v.parse::<f64>().map_err(|_| Fail::new("bad-value", v.clone()))? as u64);
+            }
+            rates.push(m.sample_rate.clone());
+        }
+        let want = (*n).min(cap);
+        ensure!(sent.len() <= cap, "more-than-capacity", "cycle {}: reservoir size {} configured, {} values recorded, one flush sent {}", ci, cap, n, sent.len());
+        ensure!(sent.len() == want, "yield-count-wrong", "cycle {}: reservoir size {} configured, {} values recorded, flush sent {} (expected {})", ci, cap, n, sent.len(), want);
+        let mut uniq = sent.clone();
+        uniq.sort();
+        uniq.dedup();
+        ensure!(uniq.len() == sent.len() && sent.iter().all(|v| *v >= first && *v < next), "yielded-value-not-from-this-cycle", "cycle {}: values {:?} sent, recorded in this window were {}..{}", ci, sent, first, next);
+        let expect_rate = if *n <= cap { 1.0 } else { cap as f64 / *n as f64 };
+        for r in &rates {
+            let got: f64 = r.as_deref().map(|t| t.parse().unwrap_or(f64::NAN)).unwrap_or(1.0);
+            ensure!(got == expect_rate, "sample-rate-wrong", "cycle {}: reservoir size {} configured, {} recorded: message carries sample rate {:?}, expected {}", ci, cap, n, r, expect_rate);
+        }
+    }
+    Ok(())
+}
+
 pub fn run(cfg: &RunCfg, replay: Option<&str>) -> i32 {
     let mut pr = PropRun::new("C16", cfg, RULE);
     pr.register("sequential", &case_seq);
     pr.register("concurrent", &case_conc);
     pr.register("uniformity", &case_uniformity_replay);
+    pr.register("through-the-exporter", &case_exporter);
     pr.register("uniformity-fresh-threads", &case_uniformity_fresh_replay);
     if let Some(f) = replay {
         return pr.replay(f);
@@ -510,6 +569,8 @@ pub fn run(cfg: &RunCfg, replay: Option<&str>) -> i32 {
     let r = run_lane(&c, "C16", &Lane { name: "sequential", cases: c.cases(600_000, 10_000_000), max_len: 600, sched_len: 0, workers: 0, f: &case_seq });
     pr.push(r);
     let r = run_lane(&c, "C16", &Lane { name: "concurrent", cases: c.cases(1_000_000, 20_000_000), max_len: 24, sched_len: 48, workers: 0, f: &case_conc });
+    pr.push(r);
+    let r = run_lane(&c, "C16", &Lane { name: "through-the-exporter", cases: c.cases(60_000, 2_000_000), max_len: 32, sched_len: 0, workers: 0, f: &case_exporter });
     pr.push(r);
     let r = uniformity(&pr);
     pr.push(r);
